@@ -510,6 +510,9 @@ type shadow struct {
 	val         string // value of the latest successful Set
 	never       bool   // no expiry
 	dl          int64  // deadline (unix seconds), valid when !never
+	when        int64  // instant (unix ms) at which `ttl` seconds have really elapsed: t0_ms + ttl*1000
+	nowMs       int64  // clock reading of the current call (set by check)
+	rds         bool   // shadow of the redis-backed cache: millisecond precision (dead when now_ms > when)
 	dlKnown     bool   // false after a keep-ttl Set that may have hit an evicted key
 	touch       int    // sequence number of the last touch
 	afterExpiry bool   // stored by a keep-ttl Set on an elapsed key
@@ -565,7 +568,15 @@ func (s *shadow) dead(sec int64) bool {
 	if s == nil || !s.alive {
 		return true
 	}
+	if s.rds {
+		return s.dlKnown && !s.never && s.nowMs > s.when
+	}
 	return s.dlKnown && !s.never && sec > s.dl
+}
+
+// present: the time-to-live of the key has certainly not elapsed yet (now_ms < t0_ms + ttl*1000).
+func (s *shadow) present(nowMs int64) bool {
+	return s != nil && s.alive && s.dlKnown && (s.never || nowMs < s.when)
 }
 
 func (m *monitor) effTTL(o op) int64 {
@@ -601,6 +612,10 @@ func (m *monitor) check(b *backend, o op, out string) bool {
 		key = canonKey(o.key)
 	}
 	s := b.keys[key]
+	nowMs := m.w.nowMs()
+	if s != nil {
+		s.nowMs = nowMs
+	}
 	lifetime := s != nil && s.alive // the key was set and not removed/consumed: whatever goes wrong concerns its time-to-live
 	flag := func(site, what string) {
 		flagged = true
@@ -638,17 +653,17 @@ func (m *monitor) check(b *backend, o op, out string) bool {
 				flag("set-ignores-expiry", fmt.Sprintf("Set %s with must-not-exist reported already-exists although the key %s: an elapsed key must behave like a key that was never set", key, why))
 			}
 		case "ok":
-			if o.mne && s != nil && s.alive && s.dlKnown && (s.never || sec < s.dl) &&
+			if o.mne && s.present(nowMs) &&
 				((b.name == "mem" && b.othersSince(s.touch, key) < m.w.size) || (b.name == "rds" && m.admissible)) {
 				flag("must-not-exist-overwrote-live-key", fmt.Sprintf("Set %s with must-not-exist succeeded although the key is live (value %s)", key, s.val))
 			}
 			ttl := m.effTTL(o)
-			ns := &shadow{alive: true, val: o.val, dlKnown: true, never: ttl <= 0, dl: sec + ttl}
+			ns := &shadow{alive: true, val: o.val, dlKnown: true, never: ttl <= 0, dl: sec + ttl, when: nowMs + ttl*1000, rds: b.name == "rds", nowMs: nowMs}
 			if o.keep && !o.mne {
 				switch {
 				case s != nil && s.alive && !s.dead(sec):
 					// keep-ttl on a live entry keeps its deadline (in memory the entry may have been evicted: then a fresh one)
-					ns.never, ns.dl, ns.dlKnown = s.never, s.dl, s.dlKnown && !(b.name == "mem" && b.maybeEvicted)
+					ns.never, ns.dl, ns.when, ns.dlKnown = s.never, s.dl, s.when, s.dlKnown && !(b.name == "mem" && b.maybeEvicted)
 					ns.afterExpiry = s.afterExpiry
 				case b.name == "rds":
 					ns.never = true // redis: KEEPTTL on an absent key stores it without expiry
@@ -689,7 +704,7 @@ func (m *monitor) check(b *backend, o op, out string) bool {
 					if b.name == "rds" && ttl <= 0 {
 						s.alive = false // EXPIRE with a non-positive time deletes the key
 					} else {
-						s.never, s.dl, s.dlKnown = ttl <= 0, sec+ttl, true
+						s.never, s.dl, s.when, s.dlKnown = ttl <= 0, sec+ttl, nowMs+ttl*1000, true
 					}
 				}
 			}
@@ -705,11 +720,11 @@ func (m *monitor) check(b *backend, o op, out string) bool {
 				}
 			}
 		case out == "notfound":
-			if s != nil && s.alive && s.dlKnown && (s.never || sec < s.dl) {
+			if s.present(nowMs) {
 				// the property promises presence only for recently touched keys (mem) / always below the bound (rds)
 				if b.name == "mem" {
 					if n := b.othersSince(s.touch, key); n < m.w.size {
-						flag("recent-key-evicted", fmt.Sprintf("Get %s missed although it is live (deadline not reached) and only %d other distinct keys were touched since (size=%d)", key, n, m.w.size))
+						flag("recent-key-evicted", fmt.Sprintf("Get %s missed although its time-to-live has not elapsed (clock %d ms < set instant + ttl = %d ms; never=%v) and only %d other distinct keys were touched since (size=%d)", key, nowMs, s.when, s.never, n, m.w.size))
 					}
 				} else if m.admissibleFor(b, o) {
 					flag("live-key-missed", fmt.Sprintf("Get %s missed on the redis-backed cache although it was set with a positive ttl whose deadline (%d) is not reached (clock %d)", key, s.dl, sec))
@@ -739,7 +754,7 @@ func (m *monitor) check(b *backend, o op, out string) bool {
 		if out != "wins:0" && s.dead(sec) {
 			flag("get-serves-dead-key", fmt.Sprintf("a remove-after-get reader of %s succeeded although the key is dead", key))
 		}
-		if out == "wins:0" && s != nil && s.alive && s.dlKnown && (s.never || sec < s.dl) && !b.maybeEvicted && (b.name == "mem" && m.w.size > 0 || b.name == "rds" && m.admissible) {
+		if out == "wins:0" && s.present(nowMs) && !b.maybeEvicted && (b.name == "mem" && m.w.size > 0 || b.name == "rds" && m.admissible) {
 			flag("race-nobody-wins", fmt.Sprintf("no remove-after-get reader of live key %s succeeded", key))
 		}
 		if s != nil {
@@ -1075,11 +1090,11 @@ func spec() corr.Spec {
 		Count: func(tier string) int {
 			switch tier {
 			case "quick":
-				return 2500
+				return 6000
 			case "thorough":
-				return 30000
+				return 60000
 			}
-			return 60000
+			return 100000
 		},
 		Gen: func(r *rng.R, tier string, i int) corr.Case {
 			n := r.Range(6, 30)
